@@ -96,7 +96,7 @@ func (t *Tracker) AcceptedV1(set []types.Transaction) {
 		if !pool[id] || t.items[id] != nil {
 			continue
 		}
-		it := &tracked{era: t.W.eraOf(id)}
+		it := &tracked{era: t.W.eraOf(txn)}
 		for _, in := range txn.SiacoinInputs {
 			it.inputs = append(it.inputs, types.Hash256(in.ParentID))
 			if p, ok := cr[types.Hash256(in.ParentID)]; ok {
